@@ -157,6 +157,7 @@ type lkCtx struct {
 	locMap   map[string]bool
 	locOwner map[string]bool // the struct of the location declares a mutex
 	locNames map[string]bool // bare field names of locations
+	globals  map[*types.Var]string // package-level variables of the analysed packages
 	fnOf     map[*types.Func]*lkFn
 	byName   map[string][]*lkFn
 }
@@ -164,7 +165,7 @@ type lkCtx struct {
 func extractLocks(w *strings.Builder) error {
 	im := &lkImporter{fset: token.NewFileSet(), pkgs: map[string]*types.Package{}, files: map[string][]*ast.File{},
 		info: &types.Info{Selections: map[*ast.SelectorExpr]*types.Selection{}, Uses: map[*ast.Ident]types.Object{}, Defs: map[*ast.Ident]types.Object{}}}
-	cx := &lkCtx{im: im, locOf: map[*types.Var]string{}, locMap: map[string]bool{}, locOwner: map[string]bool{}, locNames: map[string]bool{},
+	cx := &lkCtx{im: im, locOf: map[*types.Var]string{}, locMap: map[string]bool{}, locOwner: map[string]bool{}, locNames: map[string]bool{}, globals: map[*types.Var]string{},
 		fnOf: map[*types.Func]*lkFn{}, byName: map[string][]*lkFn{}}
 	var fns []*lkFn
 	for _, dir := range lkDirs {
@@ -190,6 +191,13 @@ func extractLocks(w *strings.Builder) error {
 			})
 		}
 		for _, name := range p.Scope().Names() {
+			if v, ok := p.Scope().Lookup(name).(*types.Var); ok {
+				loc := "var " + short + "." + name
+				cx.globals[v] = loc
+				_, isMap := v.Type().Underlying().(*types.Map)
+				cx.locMap[loc] = isMap
+				cx.locOwner[loc] = true // a package-level variable is shared by everybody: always must-guard
+			}
 			tn, ok := p.Scope().Lookup(name).(*types.TypeName)
 			if !ok {
 				continue
@@ -585,7 +593,38 @@ func (cx *lkCtx) scan(fn *lkFn) {
 		}
 	}
 	var walk func(n ast.Node, inGo bool)
+	global := func(e ast.Expr) (string, bool) { // g, g[k], (*g)[k] for a package-level variable g
+		for {
+			switch x := e.(type) {
+			case *ast.IndexExpr:
+				e = x.X
+			case *ast.ParenExpr:
+				e = x.X
+			case *ast.StarExpr:
+				e = x.X
+			case *ast.Ident:
+				if v, ok := info.Uses[x].(*types.Var); ok {
+					loc, ok := cx.globals[v]
+					return loc, ok
+				}
+				return "", false
+			default:
+				return "", false
+			}
+		}
+	}
+	writtenIdent := map[*ast.Ident]bool{}
 	write := func(e ast.Expr, inGo bool) {
+		if loc, ok := global(e); ok {
+			fn.acc = append(fn.acc, lkAcc{loc, cx.locMap[loc], true, e.Pos(), inGo, fset.Position(e.Pos()).Line})
+			ast.Inspect(e, func(n ast.Node) bool {
+				if id, ok := n.(*ast.Ident); ok {
+					writtenIdent[id] = true
+				}
+				return true
+			})
+			return
+		}
 		s := target(e)
 		if s == nil {
 			return
@@ -629,6 +668,11 @@ func (cx *lkCtx) scan(fn *lkFn) {
 					cx.fnOf[fo].escapes = true // method value / qualified function used as a value
 				}
 			case *ast.Ident:
+				if v, ok := info.Uses[x].(*types.Var); ok && !writtenIdent[x] {
+					if loc, ok := cx.globals[v]; ok {
+						fn.acc = append(fn.acc, lkAcc{loc, cx.locMap[loc], false, x.Pos(), inGo, fset.Position(x.Pos()).Line})
+					}
+				}
 				if fo, ok := info.Uses[x].(*types.Func); ok && cx.fnOf[fo] != nil && !calledAs[x] && !isSel[x] {
 					cx.fnOf[fo].escapes = true // function used as a value
 				}
